@@ -50,25 +50,28 @@ fn fast_gnp_random_graph_directed(
     for i in 0..num_nodes {
         graph.add_node(Node::from_name(i));
     }
-    let mut w: i32 = -1;
-    let lp = (1.0 - edge_probability).ln();
-    let mut v = 0;
+    // The skip can exceed any `i32` for a small `edge_probability`, so the position is
+    // kept in `i64` with saturating additions; `ln_1p` keeps `ln(1 - p)` non-zero for tiny `p`.
+    let n = num_nodes as i64;
+    let mut w: i64 = -1;
+    let lp = (-edge_probability).ln_1p();
+    let mut v: i64 = 0;
     let mut edges = vec![];
-    while v < num_nodes {
+    while v < n {
         let lr: f64 = (1.0_f64 - rng.gen::<f64>()).ln();
-        w = w + 1 + ((lr / lp) as i32);
+        w = w.saturating_add(1).saturating_add((lr / lp) as i64);
         if v == w {
             w += 1;
         }
-        while v < num_nodes && num_nodes <= w {
-            w -= num_nodes;
+        while v < n && n <= w {
+            w -= n;
             v += 1;
             if v == w {
                 w += 1;
             }
         }
-        if v < num_nodes {
-            edges.push((v, w));
+        if v < n {
+            edges.push((v as i32, w as i32));
         }
     }
     match graph.add_edge_tuples(edges) {
@@ -86,19 +89,21 @@ fn fast_gnp_random_graph_undirected(
     for i in 0..num_nodes {
         graph.add_node(Node::from_name(i));
     }
-    let mut w: i32 = -1;
-    let lp = (1.0 - edge_probability).ln();
-    let mut v = 1;
+    // See the directed generator for the `i64` / `ln_1p` arithmetic.
+    let n = num_nodes as i64;
+    let mut w: i64 = -1;
+    let lp = (-edge_probability).ln_1p();
+    let mut v: i64 = 1;
     let mut edges = vec![];
-    while v < num_nodes {
+    while v < n {
         let lr: f64 = (1.0_f64 - rng.gen::<f64>()).ln();
-        w = w + 1 + ((lr / lp) as i32);
-        while w >= v && v < num_nodes {
+        w = w.saturating_add(1).saturating_add((lr / lp) as i64);
+        while w >= v && v < n {
             w -= v;
             v += 1;
         }
-        if v < num_nodes {
-            edges.push((v, w));
+        if v < n {
+            edges.push((v as i32, w as i32));
         }
     }
     match graph.add_edge_tuples(edges) {
